@@ -25,12 +25,17 @@ var $callDeferred = (deferred, jsErr, fromPanic) => {
     if ($curGoroutine.asleep) {
         return;
     }
+    $curGoroutine.recoveredIn = undefined;
 
     $stackDepthOffset--;
     var outerPanicStackDepth = $panicStackDepth;
     var outerPanicValue = $panicValue;
 
     var localPanicValue = $curGoroutine.panicStack.pop();
+    if ($curGoroutine.pendingFrames.length > $curGoroutine.panicStack.length) {
+        $curGoroutine.pendingFrames.pop(); /* it was a pending panic of a resumed frame */
+    }
+    var pendingBefore = $curGoroutine.pendingFrames.length;
     if (localPanicValue !== undefined) {
         $panicStackDepth = $getStackDepth();
         $panicValue = localPanicValue;
@@ -91,6 +96,12 @@ var $callDeferred = (deferred, jsErr, fromPanic) => {
             var r = call[0].apply(call[2], call[1]);
             if (r && r.$blk !== undefined) {
                 deferred.push([r.$blk, [], r]);
+                if (panicking && $panicStackDepth === null) {
+                    /* The deferred call recovered the panic and then suspended: panics it had replaced, still
+                       being handled by calls further up the JavaScript stack (in this frame or in frames
+                       called from it), are aborted and must not stay pending. */
+                    $curGoroutine.recoveredIn = deferred;
+                }
                 if (fromPanic) {
                     throw null;
                 }
@@ -128,10 +139,23 @@ var $callDeferred = (deferred, jsErr, fromPanic) => {
         $callDeferred(deferred, e, fromPanic);
     } finally {
         if (localPanicValue !== undefined) {
-            /* The panic stays pending (e.g. while the goroutine is suspended inside a deferred call) unless a
-               panic raised by one of its deferred calls replaced it: that one is already on the stack then. */
-            if ($panicStackDepth !== null && !abortedByReplacement && $curGoroutine.panicStack.length === 0) {
+            /* The panic stays pending with its frame (e.g. while the goroutine is suspended inside a deferred
+               call) unless it was replaced: by a panic raised by one of its deferred calls that has reached
+               this frame and is pending itself now, or by one that was recovered there before suspending.
+               Pending panics of frames called from here do not replace it. */
+            var frame = $curGoroutine.deferStack.indexOf(deferred);
+            for (var i = pendingBefore; i < $curGoroutine.pendingFrames.length; i++) {
+                if (frame === -1 || $curGoroutine.pendingFrames[i] <= frame) {
+                    abortedByReplacement = true;
+                }
+            }
+            if ($curGoroutine.asleep && $curGoroutine.recoveredIn !== undefined &&
+                (frame === -1 || frame >= $curGoroutine.deferStack.indexOf($curGoroutine.recoveredIn))) {
+                abortedByReplacement = true;
+            }
+            if ($panicStackDepth !== null && !abortedByReplacement) {
                 $curGoroutine.panicStack.push(localPanicValue);
+                $curGoroutine.pendingFrames.push(frame);
             }
             $panicStackDepth = outerPanicStackDepth;
             $panicValue = outerPanicValue;
@@ -156,7 +180,7 @@ var $recover = () => {
 };
 var $throw = err => { throw err; };
 
-var $noGoroutine = { asleep: false, exit: false, deferStack: [], panicStack: [] };
+var $noGoroutine = { asleep: false, exit: false, deferStack: [], panicStack: [], pendingFrames: [] };
 var $curGoroutine = $noGoroutine, $totalGoroutines = 0, $awakeGoroutines = 0, $checkForDeadlock = true, $exportedFunctions = 0;
 var $mainFinished = false;
 var $go = (fun, args) => {
@@ -197,6 +221,7 @@ var $go = (fun, args) => {
     $goroutine.exit = false;
     $goroutine.deferStack = [];
     $goroutine.panicStack = [];
+    $goroutine.pendingFrames = [];
     $schedule($goroutine);
 };
 
